@@ -342,7 +342,7 @@ func ruleIdentity(c *Ctx, rule string) {
 func init() {
 	register(&PropSpec{
 		ID:          "C17",
-		Explanation: "Decides the structural clauses of non-interference between coalesced queries: (a) per-consumer containers, (b) purity of every consumer over the shared sequences (the write-effect analysis; the sequences are shared by design), (c) one field identity for building and mapping the shared column set, (d) a consumer's error neither aborts the shared scan nor reaches another consumer, (e) a stopped consumer is removed and the scan continues exactly while someone wants more, (f) only iterations that agree on table and includeMemStore are coalesced. Added clauses: coalescing only of iterations with equal table and includeMemStore; the shared scan's deadline bounds no consumer from below.",
+		Explanation: "Decides the structural clauses of non-interference between coalesced queries: (a) per-consumer containers, (b) purity of every consumer over the shared sequences (the write-effect analysis; the sequences are shared by design), (c) one field identity for building and mapping the shared column set, (d) a consumer's error neither aborts the shared scan nor reaches another consumer, (e) a stopped consumer is removed and the scan continues exactly while someone wants more, (f) only iterations that agree on table and includeMemStore are coalesced. Added clauses: coalescing only of iterations with equal table and includeMemStore; the shared scan's deadline bounds no consumer from below. Further clauses: every remaining iteration is offered every row; an iteration receives its own error or the scan's.",
 		NotDecided:  []string{"timing of the coalescing window", "each consumer stopping at its own (shorter) deadline inside the shared scan is left to its own guard"},
 		Assumptions: []string{"VTA call graph over-approximates dynamic calls", "external pure-reader table follows documented contracts"},
 		Rules: []func(*Ctx){ruleC17a, func(c *Ctx) { rulePurity(c, "C17.b") }, func(c *Ctx) {
